@@ -4,7 +4,7 @@ SPEC = {
     "targets": ["Properties/C01.vo", "Run/C01.vo"],
     "theorems": {"Properties.C01": [
         "C01_sound_partial", "C01_rule_sound", "C01_rule_sound_merge", "C01_plain_fragment_inside",
-        "C01_mask_id", "C01_key_tables", "C01_fixed_witnesses_blocked", "C01_fixed_witnesses_blocked_round3",
+        "C01_mask_id", "C01_key_tables", "C01_fixed_witnesses_blocked", "C01_fixed_witnesses_blocked_round3", "C01_fixed_witnesses_blocked_tag_kind",
         "C01_sound_refuted_merge_not_alias", "C01_nonvacuous", "C01_nonvacuous_alias", "C01_nonvacuous_merge"]},
     "harness_args": lambda tier: (["C01", "--n", 300, "--cat", 40, "--stress", 4] if tier == "quick"
                                   else ["C01", "--n", 8000, "--cat", -1, "--stress", 40]),
@@ -13,7 +13,7 @@ SPEC = {
     "trusted_base": [
         "Coq 8.16.1 kernel + VM; no axioms (Print Assumptions: closed under the global context)",
         "hand-written Gallina models over the node forest yaml.v3 returned: pint's strict parser (Model/Parser.v, as of /repo HEAD incl. "
-        "d65cbbf, cc77cdd, a6b0afc, 3dfcdb6), readRules + the Bug/Fatal checks C01 relies on (Model/Routing.v: yaml/parse, promql/syntax, "
+        "d65cbbf, cc77cdd, a6b0afc, 3dfcdb6, b9483ac, 17469da, e113542, b22de24, 4a0d172), readRules + the Bug/Fatal checks C01 relies on (Model/Routing.v: yaml/parse, promql/syntax, "
         "alerts/for invalid duration, alerts/template syntax), Prometheus' loader (Model/PromLoader.v: yaml.v3 struct decoding of RuleGroups "
         "with KnownFields, duplicate keys, merge keys, aliases, faithful null handling incl. explicit !!null tags, + rulefmt Validate) and "
         "the masking reader (Model/Reader.v, tied by C10)",
@@ -46,13 +46,15 @@ MANIFEST = {
             "rule), if the model of pint's "
             "strict pipeline reports no Bug/Fatal (yaml/parse, promql/syntax, alerts/for, alerts/template syntax) then the model of "
             "Prometheus' loader (yaml.v3 struct decoding with KnownFields + rulefmt Validate) accepts the same node forest; the rule-level "
-            "core on its own; the alias-free fragment is an instance; the masking reader is the identity on files without pint control "
-            "comments (mask_id), so both sides decode the same bytes. The guards for null record/alert/expr, nameless groups and non-int "
+            "core on its own; the alias-free fragment is an instance; the masking reader masks nothing on files without pint control "
+            "comments and hands yaml.v3 the bytes with CR LF written as LF (mask_id; that both sides then decode the same forest is "
+            "re-checked per case). The guards for null record/alert/expr, nameless groups and non-int "
             "limits are gone (repaired in pint: d65cbbf, cc77cdd, a6b0afc) and their former witnesses are machine-checked to be blocked now. "
-            "The unguarded statement is machine-refuted by five witnesses that the real pint passes and the real rulefmt.Parse refuses "
-            "(`<<` merge of a non-alias, explicit tag contradicting the kind, scalar tagged !!null with text, group `labels: *alias`, two "
-            "`<<` keys in one mapping): registered known findings with class predicates, the last three found this round with tested "
-            "candidate patches. The finite key tables of both sides are regenerated from the sources on every run and checked against "
+            "The unguarded statement is machine-refuted by one remaining witness that the real pint passes and the real rulefmt.Parse "
+            "refuses (`<<` merge of a non-alias: known finding with class predicate). Four more classes found or confirmed this round "
+            "(scalar tagged !!null with text, group `labels: *alias`, two `<<` keys in one mapping, explicit tag contradicting the kind) were "
+            "repaired in pint from the candidate patches (b9483ac, 17469da, e113542, b22de24+4a0d172); their witnesses are machine-checked "
+            "to be blocked now, their known findings are removed. The finite key tables of both sides are regenerated from the sources on every run and checked against "
             "the models (C01_key_tables). Only TESTED, not "
             "proved: that the models equal the implementations — both verdicts and the reader identity are compared on every case with the "
             "real pipeline and the real rulefmt.Parse on the real yaml.v3 forest; the property itself is searched directly (pint verdict vs "
@@ -60,7 +62,7 @@ MANIFEST = {
             "key dropped/duplicated/misplaced, every value as an alias of every kind of anchor, under both name validation schemes), and "
             "reader-stress files crossing 4 KiB / 64 KiB line and buffer sizes with a valid or defective tail.",
     "note": "Coq 8.16.1 kernel+VM, no axioms; models hand-written and validated by differential execution; theorem holds on the stated "
-            "fragment under named oracle hypotheses; five open known findings (pint passes, Prometheus refuses).",
+            "fragment under named oracle hypotheses; one open known finding (pint passes, Prometheus refuses).",
     "technique": "Coq theorem relating two Gallina models (pint strict pipeline, Prometheus loader) over a shared node forest + reader "
                  "identity lemma + three-way differential correspondence + direct pint-vs-rulefmt.Parse oracle",
 }
